@@ -176,7 +176,7 @@ def random_shape(rng):
             return seq(("T",), inner(depth - 1, spawn_budget))
         return ("F", seq(("T",), inner(depth - 1, spawn_budget)))
 
-    budget = [3]
+    budget = [2]
     pre = inner(2, budget) if rng.chance(1, 3) else None
     body = inner(3, budget)
     main = seq(("M",), body)
@@ -187,7 +187,7 @@ def random_shape(rng):
 
 def cases(rng, tier):
     out = []
-    reps = 1 if tier == "quick" else 6
+    reps = 1 if tier == "quick" else 20
     for name, s in base_shapes(rng, tier):
         for inst, delay in (("pre", 0), ("burst", 0), ("mark", 0), ("mark", 20000)):
             for r in range(reps):
@@ -256,8 +256,12 @@ def run(res):
     C.log("C06: %d cases" % len(cs))
 
     # model: all schedules of each (shape, instant)
-    mlines = ["%s %s 1 %s" % (c["id"], model_instant(c), " ".join(toks(c["shape"]))) for c in cs]
-    nshard = min(C.NCPU, max(1, len(cs) // 20))
+    mkeys = {}
+    for c in cs:
+        c["mkey"] = "%s/%s" % (c["name"], model_instant(c))
+        mkeys.setdefault(c["mkey"], "%s %s 1 %s" % (c["mkey"], model_instant(c), " ".join(toks(c["shape"]))))
+    mlines = list(mkeys.values())
+    nshard = min(C.NCPU, max(1, len(mlines) // 10))
     with ThreadPoolExecutor(max_workers=nshard) as ex:
         mres = list(ex.map(lambda sh: run_lines(model, sh), [mlines[i::nshard] for i in range(nshard)]))
     model_out = {}
@@ -301,6 +305,7 @@ def run(res):
     errhist = {}
     samples = []
     skipped = 0
+    unexplored = set()
     for gmp, out in impl_runs:
         for c in cs:
             f = out.get(c["id"])
@@ -315,7 +320,7 @@ def run(res):
             nomark = "NOMARK" in ec
             ec = ec.split(" ")[0]
             errhist[ec] = errhist.get(ec, 0) + 1
-            m = model_out[c["id"]]
+            m = model_out[c["mkey"]]
             info = {"case": c["id"], "shape": toks(c["shape"]), "src": program(c["shape"]), "instant": c["instant"], "delay_us": c["delay_us"],
                     "gomaxprocs": gmp, "observed": {"returned": returned, "latency_us": int(lat_us), "err": ec, "value": val,
                                                     "ticks": [int(t_ret), int(t_b), int(t_c)], "goroutines": [int(g0), int(g_after)],
@@ -343,7 +348,7 @@ def run(res):
                 lat.append(int(lat_us))
             # ---- correspondence: the observation is one the model allows
             if not m["complete"]:
-                corr_diffs.append(dict(info, why="model exploration incomplete"))
+                unexplored.add(c["mkey"])
             elif returned == "true" and ec not in m["results"] and not nomark:
                 corr_diffs.append(dict(info, why="the model allows %s, the implementation returned %s" % (m["results"], ec)))
             elif m["stuck"] != (settled != "true" or t_b != t_c):
@@ -364,9 +369,10 @@ def run(res):
                    "explores ALL schedules of the same shape and must allow the observed error and predict whether everything stops. "
                    "Non-trivial = distinct (shape, instant) in which script code ran before the cancellation." % (
                        len(base_shapes(C.Rng(res.seed), tier)), "; 120 random shapes" if tier == "thorough" else "",
-                       "" if tier == "quick" else " x 6 repetitions x GOMAXPROCS {default, 1, 2}"))
+                       "" if tier == "quick" else " x 20 repetitions x GOMAXPROCS {default, 1, 2}"))
     cov["samples"] = samples
     cov["correspondence"] = {"cases": evals, "differences": len(corr_diffs), "skipped_after_hang": skipped,
+                             "shapes_explored_by_the_model": len(model_out) - len(unexplored), "shapes_beyond_the_explorer_budget": len(unexplored),
                              "model_states_max": max(v["states"] for v in model_out.values()),
                              "model_max_steps_after_flag": max(v["maxsteps"] for v in model_out.values())}
     cov["input_distribution"] = {"cases": len(cs), "returned_error_classes": errhist,
@@ -390,6 +396,10 @@ def run(res):
         res.violation(v)
     if oracle_viol:
         return
+    if proved and tier == "thorough":
+        if not C.coqchk(res, PROP):
+            proved = False
+            res.broken = {"log_tail": res.coverage.get("coqchk", {}).get("tail", ""), "errors": []}
     if not proved:
         res.violation({"property": PROP, "kind": "proof-obligation-broken", "theorem_file": "coq/props/C06.v",
                        "broken": res.broken, "search": "%d observations: no failing input" % evals}, nofail=True, tag="proof")
